@@ -80,6 +80,8 @@ ObsDefects(o, ix) ==
   \cup (IF o.need_build # NeedBuildRes(ix) THEN {<<"C06", "need_build">>} ELSE {})
   \cup (IF o.open # OpenRes(ix, ix.metric) THEN {<<"C06", "open_" \o OpenRes(ix, ix.metric) \o "_got_" \o o.open>>} ELSE {})
   \cup (IF o.open_other # OpenRes(ix, o.other) THEN {<<"C06", "open_other_metric">>} ELSE {})
+  \cup (IF \E k \in DOMAIN o.open_others : o.open_others[k][2] # OpenRes(ix, o.open_others[k][1])
+        THEN {<<"C06", "open_under_another_metric">>} ELSE {})
   \cup (IF ~o.rd.has THEN {}
         ELSE  (IF o.rd.n_items # Cardinality(Live(ix)) THEN {<<"C05", "reader_n_items">>} ELSE {})
          \cup (IF JSet(o.rd.items) # Live(ix) THEN {<<"C05", "reader_item_ids">>} ELSE {})
